@@ -6,7 +6,67 @@ using namespace coloquinte;
 namespace verif {
 const char *propId() { return "C11"; }
 
+namespace {
+/// legalize; if it returns a legal placement, legalize again: nothing may move.
+/// "" ok, "skip" first legalization infeasible, else the error.
+std::string twice(const CircuitSpec &s, const ColoquinteParameters &p1, const ColoquinteParameters &p2) {
+  Circuit c = s.build();
+  try {
+    c.legalize(p1);
+  } catch (const std::exception &) {
+    return "skip";
+  }
+  if (!legalityError(c).empty()) return "skip";
+  Frame before = snap(c);
+  try {
+    c.legalize(p2);
+  } catch (const std::exception &e) {
+    return std::string("legalizing a legal placement failed: ") + e.what();
+  }
+  std::string d = diffFrame(before, snap(c), false, true);
+  if (!d.empty()) {
+    double w = p2.legalization.orderingWidth;
+    std::ostringstream m;
+    m << "re-legalization moved a cell: " << d << " orderingWidth=" << w << (w < 0.0 || w > 1.0 ? " (outside [0,1])" : " (inside [0,1])");
+    return m.str();
+  }
+  return "";
+}
+}  // namespace
+
 bool prop(Tape &t, Report &R) {
+  if (!t.w.empty() && t.w[0] == kExplicitSpec) {
+    CircuitSpec s = decodeSpec(t);
+    static const double ows[] = {0.2, 0.9, 0.0, 1.0, 1.89, -1.0};
+    ColoquinteParameters p1(1), p2(1);
+    p1.legalization.orderingWidth = ows[t.next() % 6];
+    p2.legalization.orderingWidth = ows[t.next() % 6];
+    for (auto &c : s.cells)
+      if (!c.fixed && s.placedH(c) != s.rowHeight) return true;  // outside the property
+    if (s.nbMovable() == 0) return true;
+    {
+      // a placement that is legal as given must not move at all
+      Circuit c0 = s.build();
+      if (legalityError(c0).empty()) {
+        Frame before = snap(c0);
+        try {
+          c0.legalize(p2);
+        } catch (const std::exception &e) {
+          return R.fail(std::string("legalizing a legal placement failed: ") + e.what());
+        }
+        std::string d = diffFrame(before, snap(c0), false, true);
+        if (!d.empty()) {
+          double w = p2.legalization.orderingWidth;
+          std::ostringstream m;
+          m << "re-legalization moved a cell: " << d << " orderingWidth=" << w << (w < 0.0 || w > 1.0 ? " (outside [0,1])" : " (inside [0,1])");
+          return R.fail(m.str() + " " + s.json());
+        }
+      }
+    }
+    std::string e = twice(s, p1, p2);
+    if (e.empty() || e == "skip") return true;
+    return R.fail(e + " " + s.json());
+  }
   GenOpts o;
   o.multiRow = false;
   o.maxCoord = (1LL << 20) - 1;
@@ -95,5 +155,93 @@ bool prop(Tape &t, Report &R) {
   return true;
 }
 
-bool exhaustive(Report &, int, int, Tape &) { return true; }
+// Small-scope exhaustive part: the row configurations of C01's enumerator x
+// {no obstruction, 1x1 obstruction} x all combinations of 1..3 (4 thorough,
+// reduced) row-high cells of width 1..3, polarity {ANY,SAME,NW}, 35 targets x
+// orderingWidth pairs from {0.2,0.9}; legalize, then legalize again.
+bool exhaustive(Report &R, int shard, int nshards, Tape &failTape) {
+  std::vector<std::vector<Row>> cfgs = {
+      {Row(0, 4, 0, 1, CellOrientation::N), Row(0, 4, 1, 2, CellOrientation::FS)},
+      {Row(0, 2, 0, 1, CellOrientation::N), Row(3, 5, 0, 1, CellOrientation::N), Row(0, 5, 1, 2, CellOrientation::FS)},
+      {Row(0, 3, 0, 1, CellOrientation::N), Row(0, 3, 1, 2, CellOrientation::FS), Row(0, 3, 2, 3, CellOrientation::N)}};
+  struct Opt {
+    int w, pol, x, y;
+  };
+  std::vector<Opt> full, reduced;
+  for (int w = 1; w <= 3; ++w)
+    for (int p : {0, 1, 3})
+      for (int x = -1; x <= 5; ++x)
+        for (int y = -1; y <= 3; ++y) full.push_back({w, p, x, y});
+  for (int w = 1; w <= 2; ++w)
+    for (int x : {0, 1, 2, 4})
+      for (int y : {0, 1, 2}) reduced.push_back({w, 0, x, y});
+  bool th = R.thorough();
+  static const double ows[] = {0.2, 0.9};
+  long long idx = 0;
+  auto runOne = [&](const CircuitSpec &s, int o1, int o2) -> bool {
+    ColoquinteParameters p1(1), p2(1);
+    p1.legalization.orderingWidth = ows[o1];
+    p2.legalization.orderingWidth = ows[o2];
+    ++R.exhaustiveStates;
+    R.heartbeat();
+    std::string e = twice(s, p1, p2);
+    if (e == "skip") return true;
+    if (!e.empty()) {
+      R.fail(e + " " + s.json());
+      failTape = encodeSpec(s, {o1, o2});
+      return false;
+    }
+    if (s.nbMovable() >= 2) ++R.nontrivialCount;
+    return true;
+  };
+  for (size_t ci = 0; ci < cfgs.size(); ++ci)
+    for (int obst = 0; obst < 2; ++obst) {
+      CircuitSpec base;
+      base.rowHeight = 1;
+      base.rows = cfgs[ci];
+      if (obst) {
+        CellSpec f;
+        f.fixed = true, f.obstruction = true, f.w = 1, f.h = 1, f.x = 1, f.y = 0;
+        base.cells.push_back(f);
+      }
+      auto mk = [&](const Opt &o) {
+        CellSpec c;
+        c.w = o.w, c.h = 1, c.polarity = o.pol, c.x = o.x, c.y = o.y;
+        return c;
+      };
+      for (size_t a = 0; a < full.size(); ++a) {
+        if ((idx++) % nshards != shard) continue;
+        for (int o1 = 0; o1 < 2; ++o1)
+          for (int o2 = 0; o2 < 2; ++o2) {
+            CircuitSpec s1 = base;
+            s1.cells.push_back(mk(full[a]));
+            if (!runOne(s1, o1, o2)) return false;
+            if (o1 != o2) continue;
+            for (size_t b = 0; b < full.size(); ++b) {
+              CircuitSpec s2 = s1;
+              s2.cells.push_back(mk(full[b]));
+              if (!runOne(s2, o1, o2)) return false;
+            }
+          }
+      }
+      for (size_t a = 0; a < reduced.size(); ++a) {
+        if ((idx++) % nshards != shard) continue;
+        for (size_t b = 0; b < reduced.size(); ++b)
+          for (size_t d = 0; d < reduced.size(); ++d) {
+            CircuitSpec s3 = base;
+            s3.cells.push_back(mk(reduced[a])), s3.cells.push_back(mk(reduced[b])), s3.cells.push_back(mk(reduced[d]));
+            if (!runOne(s3, 0, 1)) return false;
+            if (!th) continue;
+            for (size_t e = 0; e < reduced.size(); e += 2) {
+              CircuitSpec s4 = s3;
+              s4.cells.push_back(mk(reduced[e]));
+              if (!runOne(s4, 1, 0)) return false;
+            }
+          }
+      }
+    }
+  R.exhaustiveDone = true;
+  R.sample("{\"exhaustive\":\"3 row configurations x {no obstruction, 1x1 obstruction} x all 1..2 row-high cell combinations (3 widths x 3 polarities x 35 targets), all 3-cell (4 thorough) combinations from a reduced set; legalize, then legalize again with orderingWidth pairs from {0.2,0.9}\"}");
+  return true;
+}
 }  // namespace verif
